@@ -173,7 +173,7 @@ def c01RestCase (id : String) (payload : List Sexp) : List String :=
 /-- `(rest-attempts (body yes|no) (ctx yes|no) (fails n) (cancel k))`: a call through a chain with
     RetryMiddleware whose base transport answers `n` times unacceptably before it is accepted; the caller
     cancels its context right after attempt `k` was answered (k < 0: never). One line set per attempt:
-    `a<j>.same` (verb, path, query, headers are the call's), `a<j>.body` (`-` | whole | drained), `a<j>.ctx`
+    `a<j>.same` (verb, path, query, headers are the call's), `a<j>.body` (`-` | whole), `a<j>.ctx`
     (background | caller | caller:done). -/
 def restAttemptsCase (id : String) (payload : List Sexp) : List String :=
   let p := Sexp.list (.atom "p" :: payload)
@@ -188,15 +188,14 @@ def restAttemptsCase (id : String) (payload : List Sexp) : List String :=
     let ca : Option Nat := if k < 0 then none else some k.toNat
     let showA := fun (a : Attempt) (j : Nat) =>
       [(s!"a{j}.same", toString (decide (a.verb = r.verb ∧ a.path = r.path ∧ a.query = r.query ∧ a.headers = r.headers))),
-       (s!"a{j}.body", match a.body with | .absent => "-" | .whole _ => "whole" | .drained _ => "drained"),
+       (s!"a{j}.body", match a.body with | .absent => "-" | .whole _ => "whole"),
        (s!"a{j}.ctx", match a.ctx with
           | none => "background"
           | some t => if a.ctxDone then t ++ ":done" else t)]
     let js := List.range (n + 1)
     let modelLines := (js.map (fun j => showA (attempt r ca j) j)).flatten
     let specLines := (js.map (fun j => showA (specAttempt r ca j) j)).flatten
-    let reg := if js.any (fun j => F_retryBody r j) then "F_retryBody" else "WF"
-    both id modelLines specLines reg
+    both id modelLines specLines "WF"
   | _, _ => err id "bad-rest-attempts-case"
 
 /-- a Go `map[string]string` built from recogniser output, printed like harness restx does -/
